@@ -49,7 +49,9 @@ CHECKS['C15'] = dict(
     engine='zoo+fakes3', category='fault_enumeration', design='DESIGN.md 3 C15',
     text='Hypothesis rule-based state machine over 2-4 real S3 cassettes (read_only x transient x prefixes that are '
          'string prefixes of one another) sharing one fake bucket with foreign objects, with a crash injected after '
-         'each individual bucket mutation of a save (plus a deterministic sweep of every configuration x crash index); '
+         'each individual bucket mutation of a save or re-save - as a BaseException (process dies) or as an ordinary '
+         'exception after the write was applied (lost response) - plus a deterministic sweep of every configuration x '
+         'crash index x flavour; '
          'oracle over the bucket mutation log and before/after contents, and discoverable => fetchable after every step.',
     note='Bucket = pbt/fakes3.py behind the real facade; a crash is a BaseException raised right after a mutation is '
          'applied. Completeness of discoverable recordings is claimed for saves only, as the property states.',
@@ -105,8 +107,10 @@ CHECKS['C05'] = dict(
     text='Same fault enumeration as C04 (capture faults, discards, forced sampling, ordinary exceptions and '
          'BaseException terminations at every step incl. inside intercepted bodies, failing save/extractor, sampling '
          'rates) observed at a spy cassette: exactly one finalisation per created recording, abort and unchanged store '
-         'whenever a capture failed or a discard happened, and every stored non-incomplete recording replays without a '
-         'missing-key error and without executing a wrapped body.',
+         'whenever a capture failed or a discard happened, every stored non-incomplete recording replays without a '
+         'missing-key error and without executing a wrapped body, and a fault-free follow-up operation on the same '
+         'recorder is saved and replays; a second part runs threaded operations (workers discarding / forcing / '
+         'intercepting concurrently) under the deterministic scheduler and requires exactly one finalisation there too.',
     note='Model of "capture failed / discarded" computed from the program description (pbt/faultrun.model_effects). '
          'Spy = thin subclass of the real in-memory / file / S3 cassette.',
     technique='Hypothesis-generated programs x exhaustive fault/crash-point placement; invariant over a spy-cassette log')
@@ -137,7 +141,9 @@ CHECKS['C09'] = dict(
          'ending in every way (return, exception, interrupt incl. on a pool thread, discard, sampled out, forced, '
          'capture/save/extractor failures), replays that succeed or fail (missing id, missing key, failing or '
          'interrupted playback function), enable/disable; idle flags after every rule and a PROBE program whose '
-         'recording and Playback on the used recorder must equal those on a fresh recorder.',
+         'recording and Playback on the used recorder must equal those on a fresh recorder; a second part uses as history '
+         'a threaded operation run under the deterministic scheduler (sampled schedules and a bounded-preemption DFS over '
+         'tiny two-worker operations), followed by the same idle check and probe.',
     note='Probe comparison excludes ids, duration, timestamp and the class object; the enable switch is modelled '
          '(only explicit API calls may change it).',
     technique='Hypothesis stateful testing; differential of a probe run against a fresh recorder')
@@ -167,7 +173,8 @@ CHECKS['C06'] = dict(
          'PYTHONHASHSEED into a file cassette and replayed, as structurally equal reconstructions (reversed dict/set '
          'construction order, keyword order swapped, uncaptured arguments replaced), by a child started with another '
          'seed: metamorphic "equal => same token" and "distinct => own token", plus equality of the key strings listed '
-         'in both processes.',
+         'in both processes, also when the second process makes the calls in reversed order (two fresh interpreters: no '
+         'dependence on call history, incl. calls that are == but differently typed).',
     note='Children are persistent interpreters speaking pickled descriptions over pipes (pbt/hashseed.py). Known '
          'finding (sets with >= 2 members in captured arguments) excluded by construction and witnessed on every run. '
          'Pairs that are == but differently typed (1/1.0/True) are not constrained.',
@@ -190,7 +197,9 @@ CHECKS['C12'] = dict(
 CHECKS['C08'] = dict(
     engine='procfault', category='exploration', design='DESIGN.md 3 C08',
     text='Hypothesis-generated fault scripts (per-id behaviour: equal, different, player/extractor/comparator raises, '
-         'bare status, worker exits, worker hangs, worker answers just after the parent gave up) x in-process/dedicated '
+         'bare status, answer the parent cannot unpickle, worker exits, hangs (also ignoring SIGTERM), answers just after the '
+         'parent gave up, dies right after the parent gave up, is killed inside its poll of the terminate event) x '
+         'in-process/dedicated '
          'x recycle rate x keep-results, run through the REAL Equalizer with real forked workers; one correctly '
          'attributed verdict per id in input order, replay and kept results belong to the labelled id, and in-process vs '
          'dedicated differential for scripts without process faults.',
